@@ -35,7 +35,24 @@ struct c20_agent {
 	frg::va_struct *vsp;
 };
 
+// LENIENT agent: a conversion character it does not know (any byte, '\0' included) consumes no argument and is reported as
+// success, so printf_format goes on parsing behind it.  (An agent is free to do that; with the refusing agent above a parser
+// that hands out a bogus conversion character is stopped by the agent before it can do harm.)
+extern "C" void vp_conv_unknown(char t);
+struct c20_agent_lenient : c20_agent {
+	using c20_agent::operator();
+	frg::expected<frg::format_error> operator() (char t, frg::format_options opts, frg::printf_size_mod szmod) {
+		auto r = c20_agent::operator()(t, opts, szmod);
+		if(!r) vp_conv_unknown(t);
+		return frg::success;
+	}
+};
+
 extern "C" {
+NI int c20_printf_lenient(const char *fmt, frg::va_struct *vs) {
+	auto r = frg::printf_format(c20_agent_lenient{{vs}}, fmt, vs);
+	return r ? 0 : -1;
+}
 // returns 0 when printf_format completed, -1 when the agent refused a conversion character
 NI int c20_printf(const char *fmt, frg::va_struct *vs) {
 	auto r = frg::printf_format(c20_agent{vs}, fmt, vs);
